@@ -235,6 +235,16 @@ generated.register(ProgBase, 'ProgBase')
 _CLASS_CACHE = {}
 
 
+class CodecMixin:
+    """A process class that stores its inputs / outputs in an encoded form (the documented extension point)."""
+
+    def encode_input_args(self, inputs):
+        return {'__encoded__': copy.deepcopy(inputs)}
+
+    def decode_input_args(self, encoded):
+        return copy.deepcopy(encoded['__encoded__'])
+
+
 class AnyEq:
     """A value that compares equal to anything (like unittest.mock.ANY)."""
 
